@@ -6,6 +6,7 @@ import (
 	"bytes"
 	"encoding/json"
 	"fmt"
+	"math/big"
 	"net"
 	"net/http"
 	"net/netip"
@@ -174,7 +175,9 @@ func (st *c31state) checkRoundTrip(unix int64, nsec int, zoneOff int) {
 
 // ---- IPv4 ------------------------------------------------------------------------------------------------------------
 
-// c31RefIPv4 is the statement written out.
+var c31Big255 = big.NewInt(255)
+
+// c31RefIPv4 is the statement written out; field values are evaluated with math/big so that no field length can wrap.
 func c31RefIPv4(s []byte) (ip [4]byte, ok bool, why string) {
 	fields := bytes.Split(s, []byte{'.'})
 	if len(fields) != 4 {
@@ -189,21 +192,18 @@ func c31RefIPv4(s []byte) (ip [4]byte, ok bool, why string) {
 				return ip, false, "nondigit"
 			}
 		}
-		g := f
-		for len(g) > 1 && g[0] == '0' {
-			g = g[1:]
+		// the field's VALUE, whatever its length, by math/big
+		v, good := new(big.Int).SetString(string(f), 10)
+		if !good {
+			return ip, false, "nondigit"
 		}
-		if len(g) > 3 {
+		if v.Cmp(c31Big255) > 0 {
+			if len(f) > 9 {
+				return ip, false, "long-field-over-255" // long enough to wrap a 32- or 64-bit accumulator
+			}
 			return ip, false, "field-over-255"
 		}
-		v := 0
-		for _, c := range g {
-			v = v*10 + int(c-'0')
-		}
-		if v > 255 {
-			return ip, false, "field-over-255"
-		}
-		ip[i] = byte(v)
+		ip[i] = byte(v.Int64())
 	}
 	return ip, true, ""
 }
@@ -616,7 +616,7 @@ func TestVerif_C31(t *testing.T) {
 	r.Rule(fmt.Sprintf("dates (29-byte inputs; oracle time.Parse(http.TimeFormat): the fast parser declines or gives the same instant and zone offset): "+
 		"day 00-99 x 12 month names and 10 bad names x every year 0000-9999 (quick tier: that full product for the years listed under date_years_with_full_day_month_product, and days {00,01,27-32,99} x 12 names for every year); (hh,mm,ss) in 00-99 cubed at 3 dates; every 3-letter weekday/month token over the letters of the names in both cases; "+
 		"1- and 2-position byte mutations of 6 base strings (1-position: all 256 values); ParseHTTPDate(AppendHTTPDate(t)) for 00:00:00, 23:59:59 and a sub-second, non-UTC-zoned noon of every day of years 1-9999, every second of 7 edge days. "+
-		"IPv4 (oracle: the statement written out, cross-validated against net/netip after stripping leading zeros): 27 field forms in every 3-, 4-field and 10 forms in every 5-field combination, every string of <=%d symbols over {0,2,5,6,9,.,a}; AppendIPv4->ParseIPv4 over 20 byte values^4 and two-byte sweeps. "+
+		"IPv4 (oracle: the statement written out, field values by math/big, cross-validated against net/netip after stripping leading zeros): 27 field forms in every 3-, 4-field and 10 forms in every 5-field combination, 10-21 digit fields (2^32, 2^63, 2^64 neighbourhoods, all-nines, zero-padded) in every one- and two-field placement, every string of <=%d symbols over {0,2,5,6,9,.,a}; AppendIPv4->ParseIPv4 over 20 byte values^4 and two-byte sweeps. "+
 		"IPv6 (oracle netip.ParseAddr(address part).Is6()): every string of <=%d symbols over {0,f,g,:,.,%%,1} inside [..] through validateIPv6Literal and URI.Parse, every string of <=%d symbols over {0,f,:,.,%%25,1,],g} through URI.Parse, group templates with zones and ports. "+
 		"Non-trivial: inputs the code under test accepts (fast date parser answers, ParseIPv4 / IPv6 host accepted)", v4Len, v6Len, v6LenB))
 	r.Assume("time.Parse, net/netip are correct (they are the references named by the statement)",
@@ -862,6 +862,101 @@ func TestVerif_C31(t *testing.T) {
 		})
 		r.Eval(n)
 	})
+	// long fields: 10-, 11-, 19-, 20- and 21-digit values around 2^32, 2^63, 2^64 and all-nines (an int accumulator
+	// wraps on them), each with leading zeros, and long zero-padded small values; every placement of one and of two such
+	// fields among short valid fields, and all four fields long over a subset.
+	{
+		one := big.NewInt(1)
+		pow := func(n uint) *big.Int { return new(big.Int).Lsh(one, n) }
+		add := func(a *big.Int, d int64) *big.Int { return new(big.Int).Add(a, big.NewInt(d)) }
+		var longs []string
+		for _, v := range []*big.Int{pow(32), add(pow(32), 1), add(pow(32), 255), add(pow(32), 256), add(pow(31), 0), add(pow(63), -1), pow(63), add(pow(63), 1), add(pow(64), -1), pow(64),
+			add(pow(64), 1), add(pow(64), 255), add(pow(64), 256), add(pow(64), 127), add(new(big.Int).Exp(big.NewInt(10), big.NewInt(19), nil), -1), add(pow(65), 7), add(pow(128), 9)} {
+			longs = append(longs, v.String())
+		}
+		for _, n := range []int{10, 11, 19, 20, 21} {
+			longs = append(longs, strings.Repeat("9", n))
+		}
+		nl := len(longs)
+		for i := 0; i < nl; i++ {
+			longs = append(longs, "0"+longs[i], "000"+longs[i])
+		}
+		longs = append(longs, strings.Repeat("0", 22)+"1", strings.Repeat("0", 21)+"255", strings.Repeat("0", 20)+"256", strings.Repeat("0", 19), strings.Repeat("0", 64)+"7")
+		short := []string{"0", "1", "255", "01"}
+		r.Set("ipv4_long_field_forms", len(longs))
+		var longAcc, longRej atomic.Int64
+		r.Par(len(longs), func(li int) {
+			L := longs[li]
+			n := 0
+			chk := func(f [4]string) {
+				s := f[0] + "." + f[1] + "." + f[2] + "." + f[3]
+				if st.checkIPv4([]byte(s), n) {
+					longAcc.Add(1)
+					r.Nontrivial("v4L" + s)
+				} else {
+					longRej.Add(1)
+					if n%7 == 0 {
+						r.Nontrivial("v4Lr" + s)
+					}
+				}
+				n++
+			}
+			for pos := 0; pos < 4; pos++ {
+				// one long field
+				seqx.Product([]int{len(short), len(short), len(short)}, -1, func(idx []int) bool {
+					var f [4]string
+					k := 0
+					for p := 0; p < 4; p++ {
+						if p == pos {
+							f[p] = L
+						} else {
+							f[p] = short[idx[k]]
+							k++
+						}
+					}
+					chk(f)
+					return true
+				})
+				// two long fields
+				for pos2 := pos + 1; pos2 < 4; pos2++ {
+					for _, L2 := range longs {
+						for _, a := range short {
+							for _, b := range short {
+								var f [4]string
+								rest := []string{a, b}
+								k := 0
+								for p := 0; p < 4; p++ {
+									switch p {
+									case pos:
+										f[p] = L
+									case pos2:
+										f[p] = L2
+									default:
+										f[p] = rest[k]
+										k++
+									}
+								}
+								chk(f)
+							}
+						}
+					}
+				}
+			}
+			// all four long, over every 5th form
+			for a := 0; a < len(longs); a += 5 {
+				for b := 1; b < len(longs); b += 5 {
+					for c := 2; c < len(longs); c += 5 {
+						chk([4]string{L, longs[a], longs[b], longs[c]})
+					}
+				}
+			}
+			r.Eval(n)
+		})
+		r.Add("ipv4_long_field_cases_should_accept", longAcc.Load())
+		r.Add("ipv4_long_field_cases_should_reject", longRej.Load())
+		ip, err := ParseIPv4(nil, []byte("1.2.3.18446744073709551617"))
+		r.Sample(map[string]any{"enumeration": "ipv4 long fields", "input": "1.2.3.18446744073709551617", "ParseIPv4": fmt.Sprint(ip, " ", err)})
+	}
 	v4alpha := seqx.Sym("0", "2", "5", "6", "9", ".", "a")
 	r.Par(len(v4alpha)*len(v4alpha)+1, func(i int) {
 		if i == 0 {
